@@ -160,6 +160,16 @@ CLAIMED = {
         'technique': 'contract-based deductive verification (Verus) of extracted real code over a ghost heap model of the RefCell node graph',
         'design_ref': 'DESIGN.md 8.23',
     },
+    'C19': {
+        'text': 'PARTIAL.  Deductive proof (Verus) on the verbatim body of token_tree_to_goal (unit tokentree, together with the grouping functions that build its input): the goal built for a conjunction or a disjunction has the kind of the branch token '
+                'and exactly one operand per child, and the children of such a branch are operands only - so no goal of a rule body can be dropped or merged on the way from the token tree to the goal. '
+                'The round trip of the statement itself (printing the parsed value gives the canonical text; parsing the printed text gives an equal value) is a string-level inverse of two long functions and is checked BOUNDED only: '
+                '43 rules and facts covering every construct the statement lists (c19_roundtrip on the real parser and the real Display).',
+        'note': 'Only the goal-structure fragment is proved; terms, numbers, lists, built-ins and infix operators are covered by the bounded texts only. Parenthesised groups are outside the statement\'s list of documented syntax (Display writes no parentheses). '
+                'Trusted: T1-T5 as for C18 (same unit).',
+        'technique': 'contract-based deductive verification (Verus) of extracted real code (goal-structure fragment) + bounded round-trip enumeration on the real parser / Display',
+        'design_ref': 'DESIGN.md 8.25',
+    },
     'C02': {
         'text': 'Deductive proof (Verus) on the verbatim bodies of next_solution, next_solution_and, next_solution_or over the ghost node heap (rule R15, see C05): a node whose cut flag is set answers None and does nothing; '
                 'the clause loop of a call fetches no later clause once the call\'s flag is set; an and-node does not obtain another answer from the goals left of a cut (heap invariant: a flagged node\'s head node is flagged); '
@@ -208,7 +218,7 @@ NOT_APPLICABLE = {
     'C16': 'not yet built in this session',
     'C17': 'not yet built in this session',
     'C18': 'not yet built in this session',
-    'C19': 'string-level inverse of two ~1 kLOC functions through format!/Display; no usable string theory in either verifier; a grammar spec would be a second parser (a model)',
+
     'C20': 'equality of five parsing contexts on all strings: same obstacle as C19',
     'C21': 'not yet built in this session',
     'C22': 'not yet built in this session',
